@@ -761,7 +761,7 @@ func checkItem(r *engine.R, rc *rec) {
 	case statusDiffers && natFailed:
 		ok = false
 		sig := "native-only uncaught error: " + normHead(nat.Rep.Head)
-		if strings.Contains(src, "\ncatch ") {
+		if catchRe.MatchString(src) {
 			// the VM caught it: which error class escapes is incidental
 			sig = "native-only uncaught error: raised inside do/catch and not caught"
 		}
@@ -875,6 +875,7 @@ func lineSigClass(sig string) string {
 }
 
 var backquoteRe = regexp.MustCompile("`[^`]*`")
+var catchRe = regexp.MustCompile(`(?m)^\s*catch\b`)
 
 // normHead turns an uncaught-error headline into a signature fragment: class and message without concrete values.
 func normHead(h string) string {
